@@ -111,4 +111,7 @@ pub fn run(cfg: &Cfg, rep: &mut Report) {
     let fam = r.below(FAMILIES);
     random_scen(r, fam)
   }, &oracle);
+
+  // cross-coupled pipelines: two subjects, each flattened into / cut by the other
+  super::cross::campaign(cfg, rep, cfg.n(6_000, 400_000));
 }
